@@ -79,11 +79,16 @@ def consume(session: Any, mode: str, behaviour: str, k: int, fs: Any) -> Dict[st
     return {"items": out, "error": err, "events": events}
 
 
-def ordered_canon(tables: Optional[List[Any]], keep_column_order: bool) -> Any:
+def ordered_canon(tables: Optional[List[Any]], keep_column_order: bool, sort_rows: bool = False) -> Any:
+    """tables with their column order; `sort_rows` for join results, whose row order is not defined (Acero)"""
     out = []
     for t in tables or []:
         cols = F.to_columns(t)
         names = list(cols) if keep_column_order else sorted(cols)
+        if sort_rows and names:
+            n = len(cols[names[0]])
+            rows = sorted([[cols[c][i] for c in names] for i in range(n)], key=lambda x: json.dumps(x, default=str))
+            cols = {c: [row[j] for row in rows] for j, c in enumerate(names)}
         out.append([type(t).__name__, [[c, cols[c]] for c in names]])
     return sorted(out, key=lambda x: json.dumps(x, default=str))
 
@@ -169,7 +174,7 @@ def api_args_suite(ctx: Ctx) -> None:
             elif isinstance(res, BaseException):
                 outs.append({"error": type(res).__name__})
             else:
-                outs.append({"tables": ordered_canon(res, ordering is not None), "extender_calls": ext.calls})
+                outs.append({"tables": ordered_canon(res, ordering is not None, sort_rows=(kind == "link")), "extender_calls": ext.calls})
         if use_ext:
             varied.append("function_extender")
         case = {"spec": spec, "kind": kind, "args": {k_: (sorted(str(x) for x in v) if isinstance(v, set) else str(v))[:200] for k_, v in kw.items() if k_ not in ("plugin_collector", "links", "api_data")},
